@@ -7,7 +7,7 @@ from store import *
 
 BASE = dict(CIFS='{"c1"}', CODES='{"a", "A", "bad"}', NAMES='{"_x", "_X", "_y", "bad"}', CATS='{"NULL", "", "k"}',
             VALS='{"u", "s1"}', PVALS='{"s1", "s2"}', CSLOTS="MCCSlots2", LSLOTS="MCLSlots2", MaxId=2, MaxDepth=2, MaxNl=2,
-            MaxLast=2, MaxNames=2, MaxPkt=2, MaxHist=5, MaxLoopsPerCont=2, SCRIPT="NoScript", FOREIGN="FALSE")
+            MaxLast=2, MaxNames=2, MaxPkt=2, MaxHist=5, MaxLoopsPerCont=2, SCRIPT="NoScript", FOREIGN="FALSE", DOCS="NoDocs")
 
 INVS = ["DataModel", "ItrDeliversOnce"]
 PROPS = ["ScalarCategoryStable", "OtherCifUnchanged", "FailedCallAtomic", "AbortReverts", "CloseCommits", "ItrTouchesOnlyCurrent"]
@@ -19,7 +19,7 @@ def make_cfg(params, emit=True):
     lines = ["SPECIFICATION Spec", "CONSTANTS"]
     for k in ("CIFS", "CODES", "NAMES", "CATS", "VALS", "PVALS"):
         lines.append("  %s = %s" % (k, p[k]))
-    for k in ("CSLOTS", "LSLOTS", "SCRIPT"):
+    for k in ("CSLOTS", "LSLOTS", "SCRIPT", "DOCS"):
         lines.append("  %s <- %s" % (k, p[k]))
     for k in ("MaxId", "MaxDepth", "MaxNl", "MaxLast", "MaxNames", "MaxPkt", "MaxHist", "MaxLoopsPerCont", "FOREIGN"):
         lines.append("  %s = %s" % (k, p[k]))
@@ -209,12 +209,14 @@ def c04(tier, replay=None):
     if tier == "quick":
         plans = [("main-d4", dict(MaxHist=4), "states"),
                  ("nested-d2", dict(SCRIPT="ScriptNest", MaxHist=2, MaxId=3, CODES='{"a", "b", "B", "bad"}'), "states"),
+                 ("parse-d4", dict(DOCS="MCDocs", MaxHist=4, MaxId=3, CSLOTS="MCCSlots2", LSLOTS="MCLSlots1", CATS='{"", "k"}', NAMES='{"_x", "_y", "bad"}', MaxNames=1, MaxPkt=1, PVALS='{"s1"}'), "states"),
                  ("twin-d2", dict(SCRIPT="ScriptTwin", MaxHist=2, MaxId=2, CODES='{"a", "b"}', NAMES='{"_x", "_y", "bad"}', CATS='{"NULL", "", "k"}', MaxNames=1, MaxPkt=1), "states"),
                  ("two-cifs-d4", dict(CIFS='{"c1", "c2"}', MaxHist=4, CSLOTS="MCCSlots2", NAMES='{"_x", "_X", "bad"}', CODES='{"a", "A"}', CATS='{"NULL", ""}', MaxNames=1, MaxPkt=1), "states")]
     else:
         plans = [("main-d6", dict(MaxHist=6), "states"),
                  ("nested-d4", dict(SCRIPT="ScriptNest", MaxHist=4, MaxId=4, MaxDepth=3, CODES='{"a", "b", "B", "bad"}'), "states"),
                  ("loop-d3", dict(SCRIPT="ScriptLoop", MaxHist=3, MaxLast=4, NAMES='{"_x", "_X", "_y", "_z", "bad"}', VALS='{"u", "s1", "L"}'), "states"),
+                 ("parse-d5", dict(DOCS="MCDocs", MaxHist=5, MaxId=3, CSLOTS="MCCSlots2", LSLOTS="MCLSlots1", CATS='{"", "k"}', NAMES='{"_x", "_X", "_y", "bad"}', MaxNames=1, MaxPkt=1, PVALS='{"s1"}'), "states"),
                  ("twin-d3", dict(SCRIPT="ScriptTwin", MaxHist=3, MaxId=2, CODES='{"a", "b"}', NAMES='{"_x", "_y", "bad"}', CATS='{"NULL", "", "k"}', MaxNames=1, MaxPkt=1), "states"),
                  ("two-cifs-d5", dict(CIFS='{"c1", "c2"}', MaxHist=5, NAMES='{"_x", "_X", "bad"}', CODES='{"a", "A"}', CATS='{"NULL", ""}', MaxNames=1, MaxPkt=1), "states")]
     for name, params, mode in plans:
